@@ -335,7 +335,7 @@ static bool sawRepaired() {
 
 // ------------------------------------------------------------------ fixed witness cases (lowest indices)
 static Vector vec(std::initializer_list<double> l) { Vector v(l.size()); size_t i = 0; for (double x : l) v[i++] = x; return v; }
-static const long kFixed = 23;
+static const long kFixed = 24;
 static bool g_thorough = false;
 // cases that exercise sawtoothInterpolation where no stored point helps (the as-found source indexes / reads
 // what is not there): kept in their own cases so a crash is attributed exactly
@@ -424,6 +424,25 @@ static void fixed_case(long idx) {
                 vec({0.75, std::ldexp(-6755425628124183.0, -53)}), k0, vec({0, 0.75}), vec({-0.75, -1.75}), vec({-0.75, -1.5}),
                 vec({std::ldexp(-6755394937456117.0, -53), -1.5}), vec({0.75, std::ldexp(-6755408456643607.0, -53)})};   // as found: seed 2 quick case 2353
         emit_prune(w, 2);
+        break; }
+    case 23: { // frozen witness of C12-witnesslp-hang: lp_solve's dual simplex (devex pricing) cycles in the third findWitness call
+               // of Pruner(6) on these 12 vectors (entries up to 2^23); scaled by 2^-10 the same set is pruned to 9 vectors at once
+        VList v{
+            vec({std::ldexp(7.0, 20), std::ldexp(1.0, 21), std::ldexp(0.0, 0), std::ldexp(-7.0, 20), std::ldexp(1.0, 21), std::ldexp(-1.0, 21)}),
+            vec({std::ldexp(-1.0, 20), std::ldexp(-3.0, 20), std::ldexp(-1.0, 23), std::ldexp(7.0, 20), std::ldexp(-7.0, 20), std::ldexp(5.0, 20)}),
+            vec({std::ldexp(-1.0, 20), std::ldexp(-7.0, 20), std::ldexp(-7.0, 20), std::ldexp(-1.0, 23), std::ldexp(3.0, 20), std::ldexp(1.0, 23)}),
+            vec({std::ldexp(-34359738367.0, -15), std::ldexp(-240518168575.0, -15), std::ldexp(-240518168575.0, -15), std::ldexp(-274877906943.0, -15), std::ldexp(103079215105.0, -15), std::ldexp(274877906945.0, -15)}),
+            vec({std::ldexp(1.0, 22), std::ldexp(5.0, 20), std::ldexp(3.0, 20), std::ldexp(-5.0, 20), std::ldexp(1.0, 21), std::ldexp(-1.0, 22)}),
+            vec({std::ldexp(3.0, 20), std::ldexp(-1.0, 22), std::ldexp(5.0, 20), std::ldexp(-3.0, 20), std::ldexp(1.0, 20), std::ldexp(-3.0, 20)}),
+            vec({std::ldexp(3.0, 21), std::ldexp(-1.0, 20), std::ldexp(-3.0, 20), std::ldexp(1.0, 21), std::ldexp(5.0, 20), std::ldexp(-1.0, 23)}),
+            vec({std::ldexp(3.0, 21), std::ldexp(-5.0, 20), std::ldexp(3.0, 20), std::ldexp(1.0, 20), std::ldexp(-1.0, 23), std::ldexp(-7.0, 20)}),
+            vec({std::ldexp(7.0, 20), std::ldexp(-1.0, 21), std::ldexp(0.0, 0), std::ldexp(-1.0, 22), std::ldexp(3.0, 20), std::ldexp(1.0, 22)}),
+            vec({std::ldexp(0.0, 0), std::ldexp(1.0, 21), std::ldexp(1.0, 22), std::ldexp(-3.0, 20), std::ldexp(-3.0, 21), std::ldexp(1.0, 20)}),
+            vec({std::ldexp(240518168577.0, -15), std::ldexp(-68719476735.0, -15), std::ldexp(1.0, -15), std::ldexp(-137438953471.0, -15), std::ldexp(103079215105.0, -15), std::ldexp(137438953473.0, -15)}),
+            vec({std::ldexp(1.0, 22), std::ldexp(-1.0, 22), std::ldexp(1.0, 23), std::ldexp(1.0, 22), std::ldexp(1.0, 20), std::ldexp(-3.0, 21)})};
+        emit_prune(v, 6);
+        for (auto & x : v) x *= 0x1p-10;
+        emit_prune(v, 6);
         break; }
     case 15: { // dominates(): both clauses, boundaries
         emit_dom(vec({1, 1}), vec({1, 1})); emit_dom(vec({1, 1}), vec({1 + 0x1p-20, 1})); emit_dom(vec({1, 1}), vec({1 + 0x1p-19, 1}));
